@@ -1,6 +1,8 @@
 package netty
 
 import (
+	"fmt"
+
 	"github.com/go-netty/go-netty/internal/vrt"
 )
 
@@ -260,7 +262,16 @@ func ZZ_C03_Pipeline(ops, kind, entry, multi int) {
 	vrt.Assert(pl.IndexOf(func(h Handler) bool { return false }) == -1, "indexof-missing")
 	vrt.Assert(pl.LastIndexOf(func(h Handler) bool { return false }) == -1, "lastindexof-missing")
 	// ---- routing
-	exErr := zzErrClosed
+	var exErr error = zzErrClosed
+	if kind == zzKException {
+		// the class of the exception does not matter to the tail: whatever is forwarded past the last handler closes
+		switch vrt.Choose(3) {
+		case 1:
+			exErr = &zzNetErr{timeout: true}
+		case 2:
+			exErr = fmt.Errorf("wrapped: %w", &zzNetErr{timeout: true})
+		}
+	}
 	start := 0 // model index the event starts *after* (inbound) or *before* (outbound)
 	outbound := kind == zzKWrite
 	if outbound {
